@@ -58,6 +58,14 @@ def _isotherm(task):
     tpc = task["tpcR"] - RANK
     T = task["tr"] * task["tpcR"] - RANK
     pts = []
+    # history independence: the same process first evaluates ANOTHER gas (other pseudocritical point) at the very same
+    # reservoir temperature and pressures; what it returned for that gas must not leak into this one
+    other = task["tpcR"] * (0.9 if task["tr"] / 0.9 <= 3.0 else 1.1)
+    for prn in task["prs"][:: max(1, len(task["prs"]) // 3)]:
+        try:
+            gas.z_factor_DAK(T, prn * task["ppc"], other - RANK, task["ppc"] * 1.07)
+        except Exception:  # noqa: BLE001  (the warm-up is not what is judged)
+            pass
     for prn in task["prs"]:
         d = _z_point(gas, T, prn * task["ppc"], tpc, task["ppc"])
         d["pr_nominal"] = prn
